@@ -437,14 +437,54 @@ func autoSites(p *pkg, fn, prefix string, calls map[string]string) (string, []st
 func autoModule(out, mod string, p *pkg, fns [][2]string, calls map[string]string, preamble string, imports ...string) {
 	s := header(mod, imports...) + preamble
 	var rows, shapes []string
+	onDemandDone = map[string]bool{}
+	mark := len(onDemandDefs)
+	body := ""
 	for _, f := range fns {
 		txt, r, sh := autoSites(p, f[0], f[1], calls)
-		s += txt
+		body += txt
 		rows = append(rows, r...)
 		shapes = append(shapes, sh)
 	}
+	// helper functions of the package that the sites call (translated on demand, whole)
+	for _, d := range onDemandDefs[mark:] {
+		s += d + "\n"
+	}
+	s += body
 	s += "/-- generated definitions and the identifiers each one mentions, in parameter order -/\ndef siteParams : List (String × List String) := [" + strings.Join(rows, ",\n  ") + "]\n\n"
 	s += "/-- per function: number of conditions, compound assignments, plain assignments, single-value returns in the source -/\ndef shape : List (String × List Nat) := [" + strings.Join(shapes, ",\n  ") + "]\n"
 	s += footer(mod)
 	write(out, mod, s)
+}
+
+// allFuncs lists every function with a body declared in the named files of p, as (Go name, Lean prefix).
+func allFuncs(p *pkg, files ...string) [][2]string {
+	var out [][2]string
+	seen := map[string]bool{}
+	for _, f := range p.files {
+		name := p.fset.Position(f.Pos()).Filename
+		match := false
+		for _, w := range files {
+			if strings.HasSuffix(name, "/"+w) || name == w {
+				match = true
+			}
+		}
+		if !match {
+			continue
+		}
+		for _, d := range f.Decls {
+			fd, ok := d.(*ast.FuncDecl)
+			if !ok || fd.Body == nil {
+				continue
+			}
+			gn := enclosingName(fd)
+			pre := sanitize(strings.Replace(gn, ".", "_", 1))
+			if seen[pre] {
+				continue
+			}
+			seen[pre] = true
+			out = append(out, [2]string{gn, pre})
+		}
+	}
+	return out
 }
